@@ -1,6 +1,66 @@
 package main
 
+const v2pkg = "app/core/hydra/swamp/chronicler/v2"
+
 var Checks = []CheckDef{
+	{
+		ID: "C01", Title: "Storage log replays to the last-writer-wins state",
+		Harnesses: []HarnessDef{
+			{Pkg: v2pkg, Func: "VerifC01Codec", Quick: map[string]int{"maxKey": 3, "maxData": 3}, Thorough: map[string]int{"maxKey": 6, "maxData": 6}, Covers: []string{"end"}},
+			{Pkg: v2pkg, Func: "VerifC01Boundary", Quick: map[string]int{"blockSize": 64}, Thorough: map[string]int{"blockSize": 64}, Covers: []string{"end"}},
+			{Pkg: v2pkg, Func: "VerifC01Fold", Quick: map[string]int{"nOps": 3, "maxKey": 1, "maxData": 1, "opcodes": 3}, Thorough: map[string]int{"nOps": 4, "maxKey": 2, "maxData": 1, "opcodes": 4, "batchOp": 1}, Covers: []string{"end"}},
+		},
+		Assumptions: []string{"Snappy Encode/Decode is modelled as the identity on encoder output (real codec exercised by native replay)", "CRC32 is an uninterpreted function", "keys/payloads up to the stated lengths; key lengths 0,1,65535,65536,65537,70000 at the format boundary"},
+		Stubs:       []string{"snappy.Encode/Decode = tagged identity", "hash/crc32.ChecksumIEEE = UF", "os.* = in-memory FS model", "time.Now = symbolic clock"},
+		Outside:     []string{"histories longer than nOps", "payloads >= 4 GiB", "blocks with more than 65535 entries (needs a block size above ~512 KiB)"},
+	},
+	{
+		ID: "C02", Title: "Crash at any point never loses durable data or the swamp",
+		Harnesses: []HarnessDef{
+			{Pkg: v2pkg, Func: "VerifC02Crash", Quick: map[string]int{"nOps": 2}, Thorough: map[string]int{"nOps": 3}, Covers: []string{"end"}},
+		},
+		Assumptions: []string{"crash model: every file operation up to a crash point is applied, operations after the last Sync may be lost as a suffix, the in-flight write is torn at a symbolic byte offset; Rename atomic", "no reordering of unsynced writes among themselves"},
+		Stubs:       []string{"os.* = in-memory FS model with operation log", "snappy = tagged identity", "crc32 = UF"},
+		Outside:     []string{"histories longer than nOps", "sector-level reordering below the sync barrier", "directory entry durability"},
+	},
+	{
+		ID: "C03", Title: "Compaction never changes the stored state",
+		Harnesses: []HarnessDef{
+			{Pkg: v2pkg, Func: "VerifC03Compact", Quick: map[string]int{"nOps": 3}, Thorough: map[string]int{"nOps": 4}, Covers: []string{"end"}, MapOrder: true},
+			{Pkg: v2pkg, Func: "VerifC03Crash", Quick: map[string]int{"nOps": 3}, Thorough: map[string]int{"nOps": 4}, Covers: []string{"end"}, NoReplay: true},
+		},
+		Assumptions: []string{"map iteration order is nondeterministic (every permutation up to 3 live keys explored)", "crash model as C02"},
+		Stubs:       []string{"os.* = in-memory FS model", "snappy = tagged identity", "crc32 = UF"},
+		Outside:     []string{"chronicler-level triggers (maybeCompactInline thresholds) and the CLI wrapper are covered only through the v2 entry points they call"},
+	},
+	{
+		ID: "C04", Title: "Corrupt storage files are detected, never misread or crash the server",
+		Harnesses: []HarnessDef{
+			{Pkg: v2pkg, Func: "VerifC04Arbitrary", Quick: map[string]int{"maxBody": 24, "allocBound": 65535}, Thorough: map[string]int{"maxBody": 30, "allocBound": 65535}, Covers: []string{"end"}, NoReplay: true},
+			{Pkg: v2pkg, Func: "VerifC04Damaged", Quick: map[string]int{"nEntries": 2, "crcInjective": 1, "allocBound": 65535}, Thorough: map[string]int{"nEntries": 3, "crcInjective": 1, "allocBound": 65535}, Covers: []string{"end"}},
+		},
+		Assumptions: []string{"CRC-INJ: different block payloads have different CRC32 (collisions are outside the claim)", "Snappy decode of bytes not produced by the encoder: error or arbitrary bytes"},
+		Stubs:       []string{"os.* = in-memory FS model", "snappy = tagged identity / nondeterministic on foreign input", "crc32 = UF with injectivity assumption"},
+		Outside:     []string{"files larger than 64+2+maxBody bytes", "adversarial CRC collisions", "Snappy's own allocation from its length prefix"},
+	},
+	{
+		ID: "C25", Title: "Disk write failures never corrupt durable data",
+		Harnesses: []HarnessDef{
+			{Pkg: v2pkg, Func: "VerifC25DiskFull", Quick: map[string]int{"maxRoom": 24, "blockSize": 16}, Thorough: map[string]int{"maxRoom": 40, "blockSize": 16}, Covers: []string{"end"}},
+		},
+		Assumptions: []string{"fault model: the file cannot grow beyond a limit (short write + ENOSPC), the fault clears later"},
+		Stubs:       []string{"os.* = in-memory FS model with size limit", "snappy = tagged identity", "crc32 = UF"},
+		Outside:     []string{"Sync/Rename failures", "double faults", "chronicler-level error handling (errors are logged and the treasure skipped)"},
+	},
+	{
+		ID: "C29", Title: "Fast swamp-name discovery agrees with the stored name",
+		Harnesses: []HarnessDef{
+			{Pkg: v2pkg, Func: "VerifC29Name", Quick: map[string]int{"maxName": 3}, Thorough: map[string]int{"maxName": 5}, Covers: []string{"end"}},
+		},
+		Assumptions: []string{"names up to maxName bytes (arbitrary bytes)"},
+		Stubs:       []string{"os.* = in-memory FS model", "snappy = tagged identity", "crc32 = UF"},
+		Outside:     []string{"explorer directory walk / worker pool", "names longer than 65535 bytes"},
+	},
 	{
 		ID: "C20", Title: "Swamp addressing is deterministic, in range and SDK/server-consistent",
 		Harnesses: []HarnessDef{
